@@ -586,6 +586,40 @@ pub open spec fn replay_entry(v: LogView, e: EntryView) -> Option<LogView> {
 }
 
 
+/// replay a sequence of entries from state v (None: open reports Corruption)
+pub open spec fn replay_all(v: LogView, es: Seq<EntryView>) -> Option<LogView>
+    decreases es.len(),
+{
+    if es.len() == 0 { Some(v) } else {
+        match replay_entry(v, es[0]) { None => None, Some(v1) => replay_all(v1, es.skip(1)) }
+    }
+}
+
+/// L-C01 (history level): if every call of a history wrote an entry whose replay on the pre-state gives the
+/// post-state (the per-call obligations O-C01-commute-*, O-C12-one), then replaying the entries of the whole
+/// history from its initial state gives its final state.  States: vs[0] .. vs[n]; entries es[0] .. es[n-1].
+pub proof fn lemma_replay_history(vs: Seq<LogView>, es: Seq<EntryView>)
+    requires
+        vs.len() == es.len() + 1,
+        forall|i: int| 0 <= i < es.len() ==> replay_entry(#[trigger] vs[i], es[i]) == Some(vs[i + 1]),
+    ensures
+        replay_all(vs[0], es) == Some(vs.last()),
+    decreases es.len(),
+{
+    if es.len() > 0 {
+        let vs2 = vs.skip(1);
+        let es2 = es.skip(1);
+        assert forall|i: int| 0 <= i < es2.len() implies replay_entry(#[trigger] vs2[i], es2[i]) == Some(vs2[i + 1]) by {
+            assert(vs2[i] == vs[i + 1]);
+            assert(es2[i] == es[i + 1]);
+            assert(vs2[i + 1] == vs[i + 2]);
+        }
+        lemma_replay_history(vs2, es2);
+        assert(vs2[0] == vs[1]);
+        assert(vs2.last() == vs.last());
+    }
+}
+
 /// L-C01-append: replaying a batch whose positions start at or after `next` and increase by one is
 /// exactly appending the batch
 pub proof fn lemma_replay_items_is_append_all(v: LogView, k: String, items: Seq<(u64, Seq<u8>)>, pos: u64)
